@@ -4,7 +4,7 @@
    earlier history.  The samplers of /repo are tied to this generic machine by the correspondence harness
    (bit-for-bit differential runs + the trace instance) and by the footprint facts regenerated from the
    source on every run (coq/gen/Gen_C14.v), which instantiate C14_resume_footprint / C14_reinitialize. *)
-From CV Require Import Base.Tac Base.Cmp Model.C14_Chain Model.C14_Burn Model.C14_Out Model.C14_Warm Proofs.C14_Chain Proofs.C14_Burn Proofs.C14_Out Proofs.C14_Warm.
+From CV Require Import Base.Tac Base.Cmp Model.C14_Chain Model.C14_Burn Model.C14_Out Model.C14_Warm Model.C14_Gibbs Proofs.C14_Chain Proofs.C14_Burn Proofs.C14_Out Proofs.C14_Warm Proofs.C14_Gibbs.
 From Coq Require String.
 Import String.StringSyntax.
 
@@ -167,6 +167,16 @@ Proof. intros. split; [apply gibbs_continue | apply gibbs_length]. Qed.
 Theorem C14_gibbs_outputs_prefix : forall (c : Cfg) (init : St) (warm stored : list St) (rs : list Rnd),
   exists tail, gibbs_sample Cfg St Rnd Acc step c init warm stored rs = stored ++ tail /\ length tail = length rs.
 Proof. intros. apply gibbs_prefix. Qed.
+(* Gibbs blocks that take several inner transitions per sweep (HybridGibbs num_sampling_steps): the value recorded for the
+   block is the state of the block sampler after ALL inner transitions -- the last transition applied to the result of the
+   earlier ones, whether or not that last one moved -- and inner transitions compose *)
+Theorem C14_gibbs_inner_steps : forall (c : Cfg) (s : St) (rs1 rs2 : list Rnd) (r : Rnd),
+  block_after Cfg St Rnd Acc step c s [] = s /\
+  block_after Cfg St Rnd Acc step c s (rs1 ++ [r]) = fst (step c (block_after Cfg St Rnd Acc step c s rs1) r) /\
+  block_after Cfg St Rnd Acc step c s (rs1 ++ rs2) = block_after Cfg St Rnd Acc step c (block_after Cfg St Rnd Acc step c s rs1) rs2.
+Proof.
+  intros c s rs1 rs2 r. split; [reflexivity|]. split; [apply block_after_snoc | apply block_after_app].
+Qed.
 End Generic.
 Print Assumptions C14_split.
 Print Assumptions C14_length.
@@ -182,6 +192,7 @@ Print Assumptions C14_burnin_slice.
 Print Assumptions C14_legacy_callback.
 Print Assumptions C14_gibbs_continue.
 Print Assumptions C14_gibbs_outputs_prefix.
+Print Assumptions C14_gibbs_inner_steps.
 
 (* REFUTED for loops that pass a view of the stored chain to a helper that mutates it (legacy CWMH):
    what such a loop records is the chain shifted by one -- entry i is state min(i+1, Ns-1) -- so the chain does not
